@@ -97,7 +97,7 @@ func genLarfg(g *vlib.G) {
 		name string
 		e    int
 	}{{"1", 0}, {"2^600", 600}, {"2^-600", -600}, {"2^-1040", -1040}}
-	for n := 0; n <= vlib.Pick(g, 8, 12); n++ {
+	for n := 0; n <= vlib.Pick(g, 12, 16); n++ {
 		for _, inc := range []int{1, 2, 3} {
 			for _, pat := range []string{"ints", "xzero", "alpha0", "neg", "onehot"} {
 				for _, sc := range scales {
@@ -217,7 +217,7 @@ func genLarfg(g *vlib.G) {
 // Dlarf and Dlarfx: exact (dyadic data)
 
 func genLarf(g *vlib.G) {
-	N := vlib.Pick(g, 7, 12)
+	N := vlib.Pick(g, 12, 13)
 	taus := []float64{0, 0.5, 1, 2}
 	for _, side := range sides {
 		for m := 0; m <= N; m++ {
@@ -461,8 +461,8 @@ func makeBlockV(n, k int, direct lapack.Direct, store lapack.StoreV, vpat, tpat 
 }
 
 func genLarfb(g *vlib.G) {
-	N := vlib.Pick(g, 6, 8)
-	K := vlib.Pick(g, 3, 4)
+	N := vlib.Pick(g, 8, 10)
+	K := vlib.Pick(g, 4, 5)
 	for _, direct := range []lapack.Direct{lapack.Forward, lapack.Backward} {
 		for _, store := range []lapack.StoreV{lapack.ColumnWise, lapack.RowWise} {
 			for n := 1; n <= N; n++ {
@@ -557,22 +557,23 @@ func genLarfb(g *vlib.G) {
 											} else {
 												want = mul(c, hop)
 											}
-											for _, pad := range []int{0, 2} {
-												ck.ctx = fmt.Sprintf("Dlarfb side=%s trans=%s other=%d pad=%d", sideName(side), transName(trans), other, pad)
+											for _, pads := range [][4]int{{0, 0, 0, 0}, {2, 0, 3, 1}, {0, 3, 1, 2}, {1, 2, 0, 3}} {
+												pv, pt, pc, pw := pads[0], pads[1], pads[2], pads[3]
+												ck.ctx = fmt.Sprintf("Dlarfb side=%s trans=%s other=%d pads=%v", sideName(side), transName(trans), other, pads)
 												ck.class = "" // T comes from the harness: Dlarfb itself is not affected by the Dlarft defect
-												vs := place(vm, vm.c+pad, keepV)
-												ts := place(tref, k+pad, keepT)
-												cs := place(c, imax(1, nn)+pad, nil)
+												vs := place(vm, vm.c+pv, keepV)
+												ts := place(tref, k+pt, keepT)
+												cs := place(c, imax(1, nn)+pc, nil)
 												nw := nn
 												if side == blas.Right {
 													nw = m
 												}
-												ldw := k + pad
+												ldw := k + pw
 												work := poisonVec(imax(0, (nw-1)*ldw+k))
 												if nw == 0 {
 													work = poisonVec(0)
 												}
-												impl.Dlarfb(side, trans, direct, store, m, nn, k, vs.d, vm.c+pad, ts.d, k+pad, cs.d, imax(1, nn)+pad, work, ldw)
+												impl.Dlarfb(side, trans, direct, store, m, nn, k, vs.d, vm.c+pv, ts.d, k+pt, cs.d, imax(1, nn)+pc, work, ldw)
 												vs.checkRO(ck, "Dlarfb v")
 												ts.checkRO(ck, "Dlarfb t")
 												cs.checkOut(ck, "Dlarfb c")
